@@ -324,6 +324,8 @@ fn proc_cases() -> Vec<Case> {
             let mk_pauser = |ignore_term: bool| -> i32 {
                 let c = libc::fork();
                 if c == 0 {
+                    // never outlive the test, whatever happens to the signals
+                    libc::alarm(30);
                     if ignore_term {
                         libc::signal(libc::SIGTERM, libc::SIG_IGN);
                     }
